@@ -47,6 +47,10 @@ Lemma camel_plain s : plain_ident s = true -> plain_ident (camel s) = true.
 Proof. intros H. apply pascal_plain in H. unfold camel. destruct (pascal true s) as [|c r]; [discriminate|].
   cbn [plain_ident] in *. apply andb_true_iff in H as [Hc Hr]. rewrite (low_letter _ Hc), Hr. reflexivity. Qed.
 
+Lemma camel2_plain s : plain_ident s = true -> plain_ident (camel2 s) = true.
+Proof. intros H. apply pascal_plain in H. unfold camel2. destruct (pascal true s) as [|c r]; [discriminate|].
+  cbn [plain_ident] in *. apply andb_true_iff in H as [Hc Hr]. rewrite (low_letter _ Hc), Hr. reflexivity. Qed.
+
 Lemma map_up_plain s : plain_ident s = true -> plain_ident (map up s) = true.
 Proof. destruct s as [|c s]; [discriminate|]. cbn [plain_ident map]. intros H. apply andb_true_iff in H as [Hc Hs].
   rewrite (up_letter _ Hc). cbn [andb]. rewrite forallb_forall in *. intros x Hx. apply in_map_iff in Hx as [y [<- Hy]].
@@ -59,7 +63,7 @@ Proof. destruct s as [|c s]; [discriminate|]. cbn [plain_ident is_ts_identifier]
 Definition kebab_rule (r : rule) : bool := match r with RKebab | RScreamingKebab => true | _ => false end.
 
 Lemma apply_rule_plain r s : kebab_rule r = false -> plain_ident s = true -> plain_ident (apply_rule r s) = true.
-Proof. destruct r; cbn [kebab_rule apply_rule]; intros Hk H; try discriminate; auto using pascal_plain, camel_plain, map_up_plain. Qed.
+Proof. destruct r; cbn [kebab_rule apply_rule]; intros Hk H; try discriminate; auto using pascal_plain, camel2_plain, map_up_plain. Qed.
 
 (* ---------------------------------------------------------------- key holes *)
 (* the effective rule of a field / parameter *)
@@ -95,11 +99,11 @@ Proof. vm_compute. repeat split. Qed.
 
 (* ---------------------------------------------------------------- function-name holes *)
 Definition kf_reserved_fn (name : str) : bool :=
-  is_reserved (camel name) || str_eqb (camel name) (L "eval") || str_eqb (camel name) (L "arguments").
+  is_reserved (camel2 name) || str_eqb (camel2 name) (L "eval") || str_eqb (camel2 name) (L "arguments").
 
-Lemma fn_hole name : plain_ident name = true -> kf_reserved_fn name = false -> hole_ok HFn (camel name) = true.
+Lemma fn_hole name : plain_ident name = true -> kf_reserved_fn name = false -> hole_ok HFn (camel2 name) = true.
 Proof. intros Hn Hk. cbn [hole_ok]. unfold is_binding_name, kf_reserved_fn in *.
-  rewrite (plain_is_identifier _ (camel_plain _ Hn)).
+  rewrite (plain_is_identifier _ (camel2_plain _ Hn)).
   apply orb_false_iff in Hk as [Hk Ha]. apply orb_false_iff in Hk as [Hr He]. rewrite Hr, He, Ha. reflexivity. Qed.
 
 Lemma tyname_hole name suffix :
@@ -113,9 +117,43 @@ Proof. intros Hn Hs Hr He Ha. cbn [hole_ok]. unfold is_binding_name. rewrite Hr,
   rewrite (plain_is_identifier _ H). reflexivity. Qed.
 
 Lemma fn_hole_refuted :
-  hole_ok HFn (camel (L "delete")) = false /\ hole_ok HFn (camel (L "r#match")) = false /\
-  hole_ok HFn (event_fn (L "user:created/now")) = false /\ hole_ok HFn (camel (L "_2fa")) = false.
+  hole_ok HFn (camel2 (L "delete")) = false /\ hole_ok HFn (camel2 (L "r#match")) = false /\
+  hole_ok HFn (camel2 (L "_2fa")) = false.
 Proof. vm_compute. repeat split. Qed.
+
+(* listener names (repaired: every character that is not ASCII alphanumeric becomes an underscore before
+   PascalCase): legal binding names for EVERY event name *)
+Lemma other_idc c : (ascii_alnum (us_of_other c) || is_us (us_of_other c)) = true.
+Proof. sweep c. Qed.
+Lemma alnum_keep c : (ascii_alnum c || is_us c) = true -> is_us c = false -> is_id_char c = true /\ is_id_char (up c) = true.
+Proof. sweep c. Qed.
+Lemma pascal_alnum : forall s cap, forallb (fun c => ascii_alnum c || is_us c) s = true -> forallb is_id_char (pascal cap s) = true.
+Proof. induction s as [|c s IH]; intros cap H; [reflexivity|].
+  cbn [forallb] in H. apply andb_true_iff in H as [Hc Hs]. cbn [pascal].
+  destruct (is_us c) eqn:Hu; [apply IH; exact Hs|].
+  assert ((ascii_alnum c || is_us c) = true) as Hc' by (rewrite Hu; exact Hc).
+  destruct (alnum_keep c Hc' Hu) as [H1 H2].
+  destruct cap; cbn [forallb]; rewrite (IH _ Hs), ?andb_true_r; assumption. Qed.
+Lemma starts_on x : starts (L "on") ("o"%char :: "n"%char :: x) = true.
+Proof. reflexivity. Qed.
+Lemma str_eqb_eq a b : str_eqb a b = true -> a = b.
+Proof. unfold str_eqb. destruct (list_eq_dec ascii_dec a b); [auto|discriminate]. Qed.
+Lemma on_not_reserved x : is_reserved ("o"%char :: "n"%char :: x) = false.
+Proof. destruct (is_reserved ("o"%char :: "n"%char :: x)) eqn:E; [|reflexivity]. unfold is_reserved in E.
+  apply existsb_exists in E as [w [Hin Heq]]. apply str_eqb_eq in Heq.
+  assert (forallb (fun w => negb (starts (L "on") (L w))) reserved_words = true) as HF by (vm_compute; reflexivity).
+  rewrite forallb_forall in HF. specialize (HF w Hin). rewrite <- Heq, starts_on in HF. discriminate. Qed.
+Lemma on_not_word x (w : string) : starts (L "on") (L w) = false -> str_eqb ("o"%char :: "n"%char :: x) (L w) = false.
+Proof. intros Hw. destruct (str_eqb ("o"%char :: "n"%char :: x) (L w)) eqn:E; [|reflexivity].
+  apply str_eqb_eq in E. rewrite <- E, starts_on in Hw. discriminate. Qed.
+Lemma event_fn_hole name : hole_ok HFn (event_fn name) = true.
+Proof. cbn [hole_ok]. unfold event_fn, is_binding_name. change (L "on" ++ ?x) with ("o"%char :: "n"%char :: x).
+  rewrite on_not_reserved. rewrite !on_not_word by reflexivity.
+  cbn [negb andb]. rewrite !andb_true_r. cbn [is_ts_identifier]. change (is_id_start "o"%char) with true. cbn [andb forallb].
+  change (is_id_char "n"%char) with true. cbn [andb]. apply pascal_alnum.
+  rewrite forallb_forall. intros c Hc. apply in_map_iff in Hc as [y [<- _]]. apply other_idc. Qed.
+Lemma event_fn_example : event_fn (L "user:created/now") = L "onUserCreatedNow" /\ event_fn (L "app://ready") = L "onAppReady".
+Proof. vm_compute. split; reflexivity. Qed.
 
 (* ---------------------------------------------------------------- string-literal holes *)
 Definition body_char_ok (q c : ascii) : bool := negb (is_line_term c) && negb (Ascii.eqb c q) && negb (Ascii.eqb c "\"%char).
